@@ -93,6 +93,33 @@ pub fn second_mount() -> Option<PathBuf> {
         .clone()
 }
 
+/// Two freshly mounted tmpfs file systems (files created in them in the same order get equal inode
+/// numbers on different devices); unmounted when the guard is dropped. Empty when mounting fails.
+pub struct TwinMounts(pub Vec<PathBuf>);
+impl Drop for TwinMounts {
+    fn drop(&mut self) {
+        for m in &self.0 {
+            let _ = Command::new("umount").arg("-l").arg(m).stdout(Stdio::null()).stderr(Stdio::null()).status();
+        }
+    }
+}
+pub fn mount_twins(a: &Path, b: &Path) -> TwinMounts {
+    let mut v = vec![];
+    for m in [a, b] {
+        let _ = std::fs::create_dir_all(m);
+        let ok = Command::new("mount").args(["-t", "tmpfs", "-o", "size=16m", "tmpfs"]).arg(m).stdout(Stdio::null()).stderr(Stdio::null()).status().map(|s| s.success()).unwrap_or(false);
+        if ok {
+            v.push(m.to_path_buf());
+        }
+    }
+    if v.len() != 2 {
+        let g = TwinMounts(v);
+        drop(g);
+        return TwinMounts(vec![]);
+    }
+    TwinMounts(v)
+}
+
 pub fn cleanup_process_scratch() {
     if let Some(Some(m)) = SECOND_MOUNT.get() {
         let _ = Command::new("umount").arg("-l").arg(m).stdout(Stdio::null()).stderr(Stdio::null()).status();
